@@ -138,7 +138,10 @@ Outcome(s) ==
   LET other == IF OtherPresent(s) THEN Search(OtherContent, s.early) ELSE Search(<<>>, s.early)
       base == [err |-> "no", status |-> {0, 1}, mode |-> "alts", alts |-> {}, other |-> OtherPresent(s),
                olines |-> other.lines, olisted |-> other.listed,
-               selected |-> Selected(s), spawned |-> Spawned(s), facts |-> NoFacts]
+               selected |-> Selected(s), spawned |-> Spawned(s), facts |-> NoFacts,
+               \* a command that cannot be started: a second file selected in the same way stands next to the file under
+               \* test, and the error is owed for each of the two (neither can have results)
+               twin |-> Selected(s) /\ ~Spawned(s)]
   IN
   IF ~Selected(s) THEN
      \* searched directly: the child's behaviour is irrelevant
